@@ -56,6 +56,14 @@ def build(item):
     return live[-1] if live else None
 
 
+def _unrelated_history_step():
+    """something else happens in the process between two builds of one program: the genuine numpy.round is used as a block
+    function of an unrelated array (names of OTHER programs must not depend on it)"""
+    import dask_array as da
+
+    da.from_array(np.arange(4), chunks=2).map_blocks(np.round, dtype=np.int64).name
+
+
 def local_records(item):
     import cloudpickle
     import dask
@@ -67,6 +75,7 @@ def local_records(item):
         if d is None:
             return out
         out["ref"] = record(d, "built")
+        _unrelated_history_step()
         d2 = build(item)
         out["others"].append(record(d2, "built-again-in-this-process"))
         blob = cloudpickle.dumps(d)
